@@ -71,6 +71,8 @@ CHOICE_FUNCS = ['dfa_algorithms.dfa_minimize', 'dfa_algorithms.dfa_from_table', 
 
 
 def check_C01(ctx, rep):
+    small_models3.check_class_invariants(ctx, rep)
+    rep.clauses_decided.append('the constructors of DFA, NFA, PDA and TM refuse every model object that violates exactly one invariant of the formal definition and accept the valid ones, among them automata whose states are named after sets and pairs (M40, finite model)')
     small_models2.check_nfa_acceptance(ctx, rep, ctx.prog.func('nfa_algorithms.nfa_accepts_word'), ctx.prog.func('nfa_algorithms.epsilon_closure'))
     rep.clauses_decided.append('nfa_accepts_word answers as the definition on 13 model NFAs (epsilon cycles of length 3 with an exit, partial relations, an empty target set, no final state, nondeterminism, a second epsilon symbol) and all words up to length 4, epsilon_closure of every state and of a pair is the set reachable by epsilon moves, under two iteration orders of sets; operand untouched (M19, finite model)')
     rep.clauses_decided += ['epsilon_closure is a saturation that drops nothing and stops only on an empty worklist (R-WORK W1/W2/W4)',
@@ -458,6 +460,8 @@ def check_C11(ctx, rep):
 
 
 def check_C12(ctx, rep):
+    small_models3.check_dfa_checkers(ctx, rep)
+    rep.clauses_decided.append('the checkers of the union, intersection, symmetric-difference, complement and minimal-DFA exercises, evaluated whole (parsers, library construction, language comparison, feedback) on a model exercise each: OK is printed for the right answer and for none of 14 wrong answers -- accepting sets of another operation, a redirected edge, no / all accepting states, the non-minimal original, another language (K13, finite model)')
     small_models3.check_is_chomsky(ctx, rep)
     rep.clauses_decided.append('CFG.is_chomsky answers True exactly for the grammars in Chomsky normal form on 18 model grammars: right-hand sides of every shape up to length four, the offending rule first / in the middle / last, epsilon rules of other variables before and after the one of the start variable, the start variable on a right-hand side (M37, finite model)')
     small_models2.check_accepts_rejects_checker(ctx, rep, ctx.prog.func('notebook.check_automaton_accepts_rejects'))
@@ -521,6 +525,8 @@ STATE_NAME_CHAINS = [
 
 
 def check_C13(ctx, rep):
+    small_models3.check_dfa_checkers(ctx, rep)
+    rep.clauses_decided.append('the checkers of the union, intersection, symmetric-difference, complement and minimal-DFA exercises, evaluated whole (parsers, library construction, language comparison, feedback) on a model exercise each: OK is printed for the right answer and for none of 14 wrong answers -- accepting sets of another operation, a redirected edge, no / all accepting states, the non-minimal original, another language (K13, finite model)')
     small_models3.check_simple_cfg_roundtrip(ctx, rep)
     rep.clauses_decided.append('parse_simple_cfg(cfg_print_simple(G)) has the rules of G in order, its variables, terminals and start variable on seven model grammars in the simple format: the empty alternative on the first line, on a later line only, in the middle of a line, nowhere (M39, finite model)')
     small_models2.check_chomsky_phases(ctx, rep, [ctx.prog.func('cfg_algorithms.' + n0) for n0 in small_models2._PHASES], first_rule=True)
@@ -597,6 +603,8 @@ def check_C16(ctx, rep):
 
 
 def check_C17(ctx, rep):
+    small_models3.check_class_invariants(ctx, rep)
+    rep.clauses_decided.append('the constructors of DFA, NFA, PDA and TM refuse every model object that violates exactly one invariant of the formal definition and accept the valid ones, among them automata whose states are named after sets and pairs (M40, finite model)')
     small_models3.check_descriptions(ctx, rep)
     rep.clauses_decided.append('on model descriptions of each kind the parser returns exactly the automaton written next to the well-formed texts (line orders, omitted declarations, comments, several labels per line, default and recognised epsilon) and raises on each single-fault text: not deterministic, not total, undeclared state / symbol, no or two initial states, repeated declaration, incomplete or ill-formed transition, a name with a well-formed prefix only (M36, finite model)')
     small_models3.check_text_roundtrip(ctx, rep)
